@@ -1,0 +1,7 @@
+//go:build !verif
+
+package time
+
+const verifOn = false
+
+func simYield(site string) {}
